@@ -407,8 +407,9 @@ pub fn run(ctx: &Ctx) -> &'static str {
         backlog_strategy,
         |_| check_backlog,
     );
+    // the real reader tasks, uplink channel and drain passes
+    crate::props::e2e::run(ctx, crate::props::e2e::Phase::Relay, ctx.tier.pick(1, 6));
     if ctx.tier == crate::rt::Tier::Thorough {
-        crate::props::e2e::run(ctx, crate::props::e2e::Phase::Relay, 2);
         crate::fuzzrun::campaign(ctx, "c09_uplink", 300);
     }
     "exploration"
